@@ -62,6 +62,8 @@ pub const ATTR_NAMES: &[&str] = &[
     "id", "class", "href", "data-x", "a", "b", "foo", "CLASS", "Id", "xlink:href", "x", "title",
     "type", "encoding", "color", "face", "size", "charset", "content", "http-equiv", "é", "a/b",
     "=", "a\"b", "a'b", "a<b",
+    // characters whose trail byte in Shift_JIS / Big5 / GBK is an ASCII letter or punctuation
+    "ア", "表", "dカ", "功",
 ];
 
 pub const ATTR_VALUES: &[&str] = &[
